@@ -120,7 +120,9 @@ void Body(Src& s, Stats& st)
                 if (!dup) { tx.vin.emplace_back(IdOutpoint(id)); has_dup = true; }
             } else if (!unused.empty()) {
                 size_t j = s.index(unused.size());
-                tx.vin.emplace_back(IdOutpoint(unused[j]));
+                bool dup = false; // (an id taken by the double-spend branch above stays in `unused`: never twice within ONE transaction, CheckBlock rejects that before ConnectBlock)
+                for (auto& i : tx.vin) dup |= i.prevout == IdOutpoint(unused[j]);
+                if (!dup) tx.vin.emplace_back(IdOutpoint(unused[j]));
                 unused.erase(unused.begin() + j);
             }
         }
